@@ -204,6 +204,12 @@ pub fn check_match(code: u16, shape: u8, class: u16) -> Vec<Finding> {
             }
             if schema_less(code) {
                 qs.push((QTYPE::TYPE(TYPE::Unknown(code)), true, format!("TYPE(Unknown({}))", code)));
+                // a question for another type without a mnemonic is a question for another type
+                for other in [19u16, 99, 250, 256, 258, 65280, 65534, 65535] {
+                    if other != code && schema_less(other) {
+                        qs.push((QTYPE::TYPE(TYPE::Unknown(other)), false, format!("TYPE(Unknown({}))", other)));
+                    }
+                }
             }
             qs.push((QTYPE::ANY, true, "ANY".into()));
             qs.push((QTYPE::MAILB, mailbox_group(code), "MAILB".into()));
